@@ -35,7 +35,7 @@ fn family(ctx: &Ctx) -> Vec<Vec<u8>> {
     let mut out = Vec::new();
     for (i, b) in bodies.iter().enumerate() {
         for s in &seals {
-            for class in [0u8, 2] {
+            for class in 0u8..4 {
                 let mut ops = b.clone();
                 ops.extend(s.clone());
                 if let Ok(built) = crate::props::c03::build_prog(&Prog { class, method: (i as u16) + 1, tid, ops }) {
@@ -77,6 +77,32 @@ pub fn run(ctx: &Ctx) -> Report {
                     judge_guarded(judge, &Case::new("mutant", b).text(&["bytesub"]), &mut acc);
                 }
             }
+            // plausible *alternative* values in the CRC field (an implementation accepting a second
+            // value "for interoperability" shows here): byte-swapped, complemented, without the XOR
+            // constant, rotated, CRC over other ranges / without the length rewrite
+            if byte == 0 {
+                if let Ok(dm) = wire::decode(m) {
+                    if let Some(fp) = dm.attrs.iter().find(|a| a.typ == wire::FP) {
+                        let off = fp.offset;
+                        let v = u32::from_be_bytes([m[off + 4], m[off + 5], m[off + 6], m[off + 7]]);
+                        let crc = |d: &[u8]| crate::refimpl::crypto::crc32_fast(d);
+                        let mut alts: Vec<u32> = vec![v.swap_bytes(), !v, v ^ wire::FP_XOR, v.rotate_left(8), v.rotate_left(16), v.rotate_left(24), v.reverse_bits(), crc(&m[..off]) ^ wire::FP_XOR, crc(&m[..off]), crc(&m[..off + 4]) ^ wire::FP_XOR, crc(&m[20..off]) ^ wire::FP_XOR, crc(&m[2..off]) ^ wire::FP_XOR, crc(&m[4..off]) ^ wire::FP_XOR, crc(&m[8..off]) ^ wire::FP_XOR, 0, 0xFFFF_FFFF, wire::FP_XOR];
+                        // CRC with the length field set to other plausible values
+                        for l in [off - 20, off + 4 - 20, m.len() - 20 + 4, 0] {
+                            let mut pre = m[..off].to_vec();
+                            wire::set_len(&mut pre, l);
+                            alts.push(crc(&pre) ^ wire::FP_XOR);
+                        }
+                        for a in alts {
+                            if a != v {
+                                let mut b = m.clone();
+                                b[off + 4..off + 8].copy_from_slice(&a.to_be_bytes());
+                                judge_guarded(judge, &Case::new("mutant", b).text(&["alt-crc"]), &mut acc);
+                            }
+                        }
+                    }
+                }
+            }
             // bursts starting at each bit of this byte
             let nbits = m.len() * 8;
             for sb in byte * 8..byte * 8 + 8 {
@@ -110,7 +136,7 @@ pub fn run(ctx: &Ctx) -> Report {
     Report {
         acc,
         exhaustive: true,
-        rule: format!("8 bodies (one of ~300 bytes; thorough: one more of ~1150 bytes) x 4 sealing combinations ending in FINGERPRINT x 2 classes, built by the real builder; on each: the builder's CRC value vs the reference relation; every single-byte substitution (255 per byte, includes all single-bit flips); every burst of width 2..=32 at every start bit with both end bits set (all interior patterns up to width {full_w}, 3 shapes above); distinct_nontrivial = fingerprinted messages"),
+        rule: format!("8 bodies (one of ~300 bytes; thorough: one more of ~1150 bytes) x 4 sealing combinations ending in FINGERPRINT x 4 classes, built by the real builder; on each: the builder's CRC value vs the reference relation; every single-byte substitution (255 per byte, includes all single-bit flips); every burst of width 2..=32 at every start bit with both end bits set (all interior patterns up to width {full_w}, 3 shapes above); ~20 plausible alternative CRC values (byte-swapped, complemented, without the XOR constant, rotated, over other ranges or length fields); distinct_nontrivial = fingerprinted messages"),
         bounds: json!({"messages": n_msgs, "burst_exhaustive_width": full_w, "burst_max_width": 32}),
         assumptions: vec!["mutants the reference decoder accepts (FINGERPRINT dissolved into other well-formed attributes) fall under C02, not C09".into()],
         ..Default::default()
